@@ -19,7 +19,8 @@ PROP = {
         "convergence is proved only for a peer that holds the author's document (no concurrent edit): in general it is FALSE (F-C15-reuse-concurrent)",
         "GC: the model has no purge; the GC half of redo_gc_witness lives in the minimal fragment Model/UndoGc.lean (objects), GC-on histories are otherwise covered by the implementation oracle only after the first purge that matters",
         "GC-on stream uses the object/counter alphabets only (array tombstone purges are C03's known findings)",
-        "the single-replica re-identification defect (former F-C14-array-reid / F-C15-array-reid) is repaired (868855dc); S7 (collecting the tombstone of a re-identified container) is a regression trace in corpus/C15",
+        "model gap (not a finding): a delivered operation whose parent is the OLD identity of an array element that the receiver re-inserted by undo/redo acts on the tombstone's own children in Go (invisible, replicas converge); the one-entry-per-identity heap cannot express it, such traces are compared only up to that delivery (counter muted-traces:remote-into-reid, corpus/C15/undo-remote-into-old-identity.trace)",
+        "the single-replica re-identification defect (former F-C14-array-reid / F-C15-array-reid) is repaired (FIXU); S7 (collecting the tombstone of a re-identified container) is a regression trace in corpus/C15",
         "in GC-on traces removed members of objects are not compared in the structural dump of restored values (a replica may or may not have purged them)",
     ],
     "not_modelled": ["server/packs (real push-pull), snapshots", "presence"],
